@@ -80,3 +80,42 @@ Theorem credit_sorted_refuted :
 Proof.
   exists (map (fun k => inject_Z (Z.of_nat k)) (seq 0 12)). vm_compute. discriminate.
 Qed.
+
+From Coq Require Import Lia.
+(* C11 (repaired by a fix: commit): push_negatives shifted an integer criterion in the criterion's own
+   storage type.  Model of the old behaviour for a signed integer type of [bits] bits: every result is
+   wrapped into [-2^(bits-1), 2^(bits-1)).  On int8 [-127; -2; 10] the shifted criterion does not have
+   minimum 0 (10 + 127 = 137 wraps to -119); in unbounded integers - the repaired behaviour widens to 64
+   bits first - it has, for every input (Transform.push_neg_min_zero). *)
+Definition wrap (bits : positive) (x : Z) : Z :=
+  let h := Z.pow 2 (Z.pos bits - 1) in ((x + h) mod (2 * h) - h)%Z.
+Definition zmin (v : list Z) : Z := fold_right Z.min (hd 0%Z v) v.
+Definition push_neg_wrapped (bits : positive) (v : list Z) : list Z :=
+  let mn := zmin v in if (mn <? 0)%Z then map (fun x => wrap bits (x - mn)) v else v.
+Definition push_neg_Z (v : list Z) : list Z :=
+  let mn := zmin v in if (mn <? 0)%Z then map (fun x => (x - mn)%Z) v else v.
+
+Theorem push_neg_int8_refuted :
+  exists v, Forall (fun x => (-128 <= x < 128)%Z) v /\ zmin (push_neg_wrapped 8 v) <> 0%Z.
+Proof.
+  exists [-127; -2; 10]%Z. split.
+  - repeat constructor; vm_compute; discriminate.
+  - vm_compute. discriminate.
+Qed.
+
+(* wrap is the identity on values that fit: the old code was right exactly when every shifted value fits *)
+Lemma wrap_fits bits x :
+  (- Z.pow 2 (Z.pos bits - 1) <= x < Z.pow 2 (Z.pos bits - 1))%Z -> wrap bits x = x.
+Proof.
+  intros H. unfold wrap. set (h := Z.pow 2 (Z.pos bits - 1)) in *.
+  assert (Hh : (0 < h)%Z) by (apply Z.pow_pos_nonneg; lia).
+  rewrite Z.mod_small by lia. lia.
+Qed.
+
+Theorem push_neg_wrapped_agrees bits v :
+  Forall (fun x => (- Z.pow 2 (Z.pos bits - 1) <= x - zmin v < Z.pow 2 (Z.pos bits - 1))%Z) v ->
+  push_neg_wrapped bits v = push_neg_Z v.
+Proof.
+  intros H. unfold push_neg_wrapped, push_neg_Z. destruct (zmin v <? 0)%Z; [|reflexivity].
+  apply map_ext_in. intros x Hx. apply wrap_fits. rewrite Forall_forall in H. exact (H x Hx).
+Qed.
